@@ -145,12 +145,33 @@ func exportAll(n *engine.Node, height int64) (out map[string]json.RawMessage, er
 }
 
 func (m *Exporter) roundTrip(w *engine.World, prep bool, when string) {
+	m.roundTripFrom(w, prep, when, false)
+}
+
+// roundTripFrom does one export/import round trip. servicePrepared: the as-is attempt was
+// rejected by the service module's import (a known finding: service only imports contexts
+// that are paused and idle, i.e. the state its own zero-height preparation leaves), so the
+// source is a second clone on which service's and oracle's preparation ran and nothing
+// else - heights stay absolute - so that the other nine modules still get their as-is
+// comparison instead of stopping at service's rejection in nine runs out of ten.
+func (m *Exporter) roundTripFrom(w *engine.World, prep bool, when string, servicePrepared bool) {
 	variant := "as-is"
 	if prep {
 		variant = "zero-height"
 	}
 	src := w.Node.Clone("export-source")
 	h := src.Height
+	if servicePrepared {
+		ctx := uncached(src, h)
+		if err := engine.Catch("PrepForZeroHeightGenesis", func() error {
+			oracle.PrepForZeroHeightGenesis(ctx, src.K.Oracle)
+			service.PrepForZeroHeightGenesis(ctx, src.K.Service)
+			return nil
+		}); err != nil {
+			return
+		}
+		w.Hit("C12.exports_with_service_prepared")
+	}
 	if prep {
 		// what an application does before a restart export
 		ctx := uncached(src, h)
@@ -200,6 +221,9 @@ func (m *Exporter) roundTrip(w *engine.World, prep bool, when string) {
 		}
 		w.Violate("C12", fmt.Sprintf("import-rejected/%s/%s/%s", mod, site, shape(err.Error())),
 			"the genesis exported (%s) from the state of height %d is rejected by InitChain of a fresh application: %s (error class; identifiers and numbers elided, because which offending object the module names first can depend on Go map order)", variant, h, shape(err.Error()))
+		if mod == "service" && !prep && !servicePrepared {
+			m.roundTripFrom(w, prep, when, true)
+		}
 		return
 	}
 	w.Hit("C12.imports_accepted")
